@@ -3,7 +3,7 @@ import ast
 from vstatic import terms as T
 from vstatic.terms import sym, Term, Atom, lift, pretty, TRUE, FALSE, NONE
 from vstatic.nonedef import analyse
-from .common import agree_ref, selfattr, dominates
+from .common import init_invariant, prog_functions, attr_stores_with_loop, fresh_value, agree_ref, selfattr, dominates
 
 MA = 'voltage.antenna.MultiAntennaArray.'
 
@@ -42,6 +42,14 @@ def get_samples(self, num_samples):
     else:
         samples = [[antenna.x.v] for antenna in self.antennas]
     return xp.array(samples)
+'''
+REF_ADD_TIME = '''
+def add_time(self, t):
+    self.set_time(self.t_start + t)
+'''
+REF_RESET_START = '''
+def reset_start(self):
+    self.set_time(self.t_start)
 '''
 REF_SET_TIME = '''
 def set_time(self, t):
@@ -195,8 +203,29 @@ def __init__(self, num_antennas, sample_rate=3*u.GHz, fch1=0*u.GHz, ascending=Tr
     # ---- D4 reset
     ctx.clause = 'D4'
 
+    # class invariant (established by __init__, no other writer): bg_streams lists exactly the background streams
+    inv = init_invariant(ctx, MA[:-1], 'bg_streams')
     agree_ref(ctx, ctx.func(MA + 'set_time'), REF_SET_TIME, 'set_time: every antenna\'s carried-over background is cleared and '
-              'the start-of-observation flag set', what=('attrstores', 'calls'), max_depth=0, expand=False)
+              'the start-of-observation flag set', what=('attrstores', 'calls'), max_depth=0, expand=False,
+              **({'heap': {'bg_streams': inv}} if inv is not None else {}))
+    # reset_start / add_time must have the effects of set_time at the (unchanged / advanced) clock: the shared background
+    # streams are rewound to the array clock and every carried-over cache is dropped
+    SET = MA + 'set_time'
+    # (both sides are analysed THROUGH set_time, so the comparison is on effects, not on how they are spelled)
+    hp = {'heap': {'bg_streams': inv}} if inv is not None else {}
+    agree_ref(ctx, ctx.func(MA + 'add_time'), REF_ADD_TIME, 'add_time(t) == set_time(t_start + t)', what=('attrstores', 'calls'),
+              expand=False, **hp)
+    agree_ref(ctx, ctx.func(MA + 'reset_start'), REF_RESET_START, 'reset_start() == set_time(t_start): background streams rewound '
+              'to the array clock, caches dropped, start-of-observation flag set', what=('attrstores', 'calls'), expand=False, **hp)
+    # every whole-attribute store of bg_cache gives the antenna its OWN list (get_samples writes into it in place)
+    n_st = 0
+    for fi in prog_functions(ctx):
+        for st, loop in attr_stores_with_loop(fi.node, 'bg_cache'):
+            n_st += 1
+            ok, why = fresh_value(fi.node, st, loop)
+            ctx.ob('ALIASINPLACE', 'each antenna\'s bg_cache is a list of its own (never an object shared between antennas or calls)',
+                   fi, ok, {'value': ast.unparse(st.value), 'why': why}, node=st)
+    ctx.require(n_st >= 1, 'bg_cache is no longer assigned anywhere (ALIASINPLACE vacuity guard)')
 
 
 META = {
